@@ -18,6 +18,7 @@ import (
 	"context"
 	"encoding/json"
 	"fmt"
+	"unicode/utf8"
 
 	"github.com/matrix-org/gomatrixserverlib/spec"
 	"github.com/matrix-org/util"
@@ -197,6 +198,16 @@ func setUnsignedFieldForInvite(event PDU, inviteState []InviteStrippedState) err
 			if err := verImpl.CheckCanonicalJSON(event.JSON()); err != nil {
 				return fmt.Errorf("invite_room_state: %w", err)
 			}
+		}
+		// Nor what the event parsers refuse in every room version: a member
+		// name twice in one object, text that is not UTF-8, half a surrogate
+		// pair. Nobody could read the event that is signed and returned.
+		eventJSON := event.JSON()
+		if !utf8.Valid(eventJSON) || hasUnpairedSurrogateEscape(eventJSON) {
+			return fmt.Errorf("invite_room_state: text that is not UTF-8")
+		}
+		if err := checkNoDuplicateKeys(eventJSON); err != nil {
+			return fmt.Errorf("invite_room_state: %w", err)
 		}
 	}
 
